@@ -776,16 +776,26 @@ class Array(metaclass=MetaArray):
         return [cls._itemtype]
 
     def _to_json(self):
-        out = []
-        for v in self:  # TODO does not support multidimensional arrays
+        def item(v):
             if hasattr(v, "_to_json"):
                 vdata = v._to_json()
             else:
                 vdata = v
             if self._has_refs and v is not None:
                 vdata = (v.__class__.__name__, vdata)
-            out.append(vdata)
-        return out
+            return vdata
+
+        shape = self._shape
+        if len(shape) == 1:
+            return [item(self[ii]) for ii in range(shape[0])]
+
+        # nested lists, one level per axis, as the constructor takes them
+        def level(prefix):
+            if len(prefix) == len(shape):
+                return item(self[prefix])
+            return [level(prefix + (ii,)) for ii in range(shape[len(prefix)])]
+
+        return level(())
 
 
 def is_index(atype):
